@@ -1,8 +1,8 @@
 CONSTANTS
-  RecheckAfterTemplate = FALSE
+  RecheckAfterTemplate = TRUE
   MaxAdded = 3
   Thresholds = {0, 1, 2}
-  IncomingSolved = {FALSE}
+  IncomingSolved = {FALSE, TRUE}
   ResetIncoming = TRUE
   ConfStrict = FALSE
 SPECIFICATION Spec
